@@ -14,7 +14,7 @@ prop("C02", "exploration",
      TB + "the slice reader as baseline (judged by C01).",
      "runtime monitor: relational comparison of three source kinds under enumerated chunkings and Pending scripts")
 prop("C03", "exploration",
-     "Runtime totality monitoring: every read call and every payload accessor runs under catch_unwind with assertions on the call bound (2*len+3), sticky Eof, position monotonicity and error-position order; all byte strings of length <=2 over 256 values, length 3 over a 48-class set, enumerations and millions of random/mutated inputs; Reader and NsReader; slice, buffered and async sources; read_to_end / read_text calls after any event for any open element; raw stream() reads. Thorough tier repeats the workload on a plain-release build and under ASan, valgrind memcheck and Miri.",
+     "Runtime totality monitoring: every read call and every payload accessor runs under catch_unwind with assertions on the call bound (2*len+3), sticky Eof, position monotonicity and error-position order; all byte strings of length <=2 over 256 values, length 3 over a 48-class set, enumerations and millions of random/mutated inputs; Reader and NsReader; slice, buffered and async sources; read_to_end / read_text calls after any event for any open element; raw stream() reads; scale documents (lengths, counts and depths at 32..8192, DOCTYPEs with hundreds of unbalanced '<') in long pieces; a buffered source that delivers more bytes after Eof was returned (Eof must stay final). Thorough tier repeats the workload on a plain-release build and under ASan, valgrind memcheck and Miri.",
      TB + "termination is judged by the logical call bound, never by wall-clock time.",
      "runtime monitor: catch_unwind + invariant assertions; sanitizer layers (Miri, ASan, valgrind) in the thorough tier")
 prop("C04", "exploration",
@@ -50,7 +50,7 @@ prop("C11", "exploration",
      TB + "R_attr (harness/src/refmodel/attr.rs) encodes the recovery positions documented on AttrError.",
      "runtime monitor: differential against a reference attribute parser (R_attr)")
 prop("C12", "exploration",
-     "Runtime monitoring on reader clones: at every Start event of every generated document read_to_end / read_to_end_into / read_to_end_into_async / read_text is called on a clone; span, next event, configuration restoration and text are compared with R_tok spans and an independent depth match; truncations exercise the failure path; the enclosing element is also skipped from inside each child.",
+     "Runtime monitoring on reader clones: at every Start event of every generated document read_to_end / read_to_end_into / read_to_end_into_async / read_text is called on a clone; span, the whole remaining event trace behind the skipped element (against the uncloned run), configuration restoration and text are compared with R_tok spans and an independent depth match; scale documents (long names, values and texts, nesting and sibling counts up to 8192) in long pieces; truncations exercise the failure path; the enclosing element is also skipped from inside each child.",
      TB + "R_tok token spans.",
      "runtime monitor: clone-and-skip differential against token spans")
 prop("C13", "exploration",
@@ -62,7 +62,7 @@ prop("C14", "exploration",
      TB + "error values are not compared.",
      "runtime monitor: relational comparison of two deserializer entry points under chunkings")
 prop("C15", "exploration",
-     "Runtime metamorphic monitoring: 20 information-preserving rewrites are applied to the serializer's output (every site for documents of <=12 tokens, random compositions beyond) and the rewritten document must deserialize to the same value.",
+     "Runtime metamorphic monitoring: 20 information-preserving rewrites are applied to the serializer's output, and to hand-written presentations of it in which absent optional children are present with xsi:nil=\"true\" (every site for documents of <=12 tokens, random compositions beyond), and the rewritten document must deserialize to the same value.",
      TB + "the element naming convention of the family as site table; R_tok/R_attr as tools.",
      "runtime monitor: metamorphic rewrites with value-equality oracle")
 prop("C16", "exploration",
@@ -70,7 +70,7 @@ prop("C16", "exploration",
      TB + "the transformation T_c in harness/src/monitors/c16.rs.",
      "runtime monitor: relational comparison under the documented configuration transformation")
 prop("C17", "exploration",
-     "Runtime relational monitoring over all 36 ASCII-compatible encoding_rs encodings: generated documents with representable characters in every construct are encoded, labelled and read (slice and buffered); decoded payloads must equal the originals; malformed sequences (confirmed by encoding_rs) must be rejected by decode/unescape; the CDATA-to-text conversions, a failing first refill, short byte-order-mark inputs, the deserializer over documents with Cyrillic names in legacy encodings, the encoding state machine paths and the repository's encoding corpus are exercised. Thorough tier adds Miri and ASan.",
+     "Runtime relational monitoring over all 36 ASCII-compatible encoding_rs encodings: generated documents with representable characters in every construct are encoded, labelled and read (slice and buffered); decoded payloads must equal the originals; malformed sequences (confirmed by encoding_rs) must be rejected by decode/unescape; the CDATA-to-text conversions, a failing first refill, short byte-order-mark inputs, payloads of 400 to 1200 characters, decode_into against decode on every payload, every pair of a first and a later declaration (the decoder never changes at the later one), the deserializer over documents with Cyrillic names and space-separated lists in legacy encodings, the encoding state machine paths and the repository's encoding corpus are exercised. Thorough tier adds Miri and ASan.",
      TB + "encoding_rs as oracle for representability and malformedness.",
      "runtime monitor: transcoding relation against the UTF-8 original; sanitizer layers in the thorough tier")
 prop("C18", "fault_enumeration",
@@ -82,6 +82,6 @@ prop("C19", "exploration",
      TB + "the reader and R_tok as tools for read-back.",
      "runtime monitor: per-event relational comparison of plain and indenting writers; serde indentation relation")
 prop("C20", "exploration",
-     "Runtime metamorphic monitoring: for generated values of 9 shapes all order-preserving interleavings of the child elements x every event-buffer limit are deserialized; result must be the original value or TooManyEvents, never Ok below the lower bound B of events to hold, monotone in the limit; random interleavings for larger sizes; reader entry point.",
+     "Runtime metamorphic monitoring: for generated values of 15 shapes (two/three lists, scalars and optional fields, same-named nested children, $value lists, text content, nested structs, a flattened member, a map with list values; five of them one level below a wrapper) all order-preserving interleavings of the child elements x every event-buffer limit are deserialized; result must be the original value or TooManyEvents, never Ok below the lower bound B of events to hold, monotone in the limit; random and two-level interleavings for larger sizes; reader entry point. The same for hand-written presentations of the contiguous document (namespace prefixes, xsi:nil elements for absent optional fields, unknown children and attributes, comments, CDATA), accepted when the presentation still gives the value. Known finding F12 (xsi:nil on a buffered element with the xsi prefix declared on the container itself) is reported as KNOWN-FINDING by exact signature.",
      TB + "B is a lower bound only (tight in >99% of the explored cases).",
      "runtime monitor: metamorphic interleavings with value-equality, lower-bound and monotonicity oracles")
